@@ -22,7 +22,7 @@ impl Rec {
 
 const OPS: &[&str] = &["add", "sub", "mul", "div"];
 
-fn bin<T: Fx>(r: &mut Rec, op: &str, x: T, y: T) {
+pub fn bin<T: Fx>(r: &mut Rec, op: &str, x: T, y: T) {
     let res = catch(|| match op {
         "add" => x.c_add(y),
         "sub" => x.c_sub(y),
@@ -32,7 +32,7 @@ fn bin<T: Fx>(r: &mut Rec, op: &str, x: T, y: T) {
     let (o, v) = opt_out(res);
     r.emit(json!({"a": op, "ty": T::TY, "x": x.limbs(), "y": y.limbs(), "out": o, "r": v}));
 }
-fn un<T: Fx>(r: &mut Rec, op: &str, x: T) {
+pub fn un<T: Fx>(r: &mut Rec, op: &str, x: T) {
     let res = catch(|| if op == "neg" { x.c_neg() } else { x.c_abs() });
     let (o, v) = opt_out(res);
     r.emit(json!({"a": op, "ty": T::TY, "x": x.limbs(), "out": o, "r": v}));
@@ -135,7 +135,7 @@ fn arith_for<T: Fx>(r: &mut Rec, rng: &mut StdRng, scale: usize) {
     edge_pairs::<T>(r, rng, quick);
     // 3. every boundary value against a core value, another boundary value and a random value
     for (i, x) in bnd.iter().enumerate() {
-        if quick && i % 4 != 0 {
+        if quick && i % 6 != 0 {
             continue;
         }
         let partners = [core[rng.gen_range(0..core.len())], bnd[rng.gen_range(0..bnd.len())], random_value::<T>(rng)];
@@ -150,7 +150,7 @@ fn arith_for<T: Fx>(r: &mut Rec, rng: &mut StdRng, scale: usize) {
         }
     }
     // 4. seeded random pairs, bit lengths spread over the whole width (wide intermediate products)
-    for i in 0..(1200 * scale) {
+    for i in 0..(if quick { 700 } else { 1200 * scale }) {
         let x = random_value::<T>(rng);
         let y = if i % 7 == 0 { x } else { random_value::<T>(rng) };
         bin(r, OPS[i % 4], x, y);
